@@ -62,6 +62,7 @@ func init() {
 		if err := p.UnMarshal(aHex(a[0])); err != nil {
 			return "err"
 		}
+		retainDetached(func() string { return fmtUnits(p) })
 		return "ok " + fmtUnits(p)
 	})
 	registerOp("pcort", func(a []string) string {
@@ -70,6 +71,41 @@ func init() {
 			return "err"
 		}
 		return "ok " + fmtUnits(p)
+	})
+	// pcoadd <step>,<step>,… : the convenience constructors of ProtocolConfigurationOptions, applied in order to an empty
+	// option list; r4 / r6 / ra = AddDNSServerIPv4AddressRequest / …IPv6AddressRequest / AddIPAddressAllocationViaNASSignallingUL,
+	// d4.<ip octets> / d6.<ip octets> = AddDNSServerIPv4Address / …IPv6Address(net.IP), mtu.<n> = AddIPv4LinkMTU
+	//   → ok <units> <Marshal octets> | err <index of the refused step> <units so far>
+	registerOp("pcoadd", func(a []string) string {
+		p := nasConvert.NewProtocolConfigurationOptions()
+		for k, st := range strings.Split(a[0], ",") {
+			f := strings.SplitN(st, ".", 2)
+			var err error
+			switch {
+			case st == "r4":
+				p.AddDNSServerIPv4AddressRequest()
+			case st == "r6":
+				p.AddDNSServerIPv6AddressRequest()
+			case st == "ra":
+				p.AddIPAddressAllocationViaNASSignallingUL()
+			case len(f) == 2 && f[0] == "d4":
+				err = p.AddDNSServerIPv4Address(net.IP(aHex(f[1])))
+			case len(f) == 2 && f[0] == "d6":
+				err = p.AddDNSServerIPv6Address(net.IP(aHex(f[1])))
+			case len(f) == 2 && f[0] == "mtu":
+				v := aU64(f[1])
+				if v > 65535 {
+					panic(badArg{})
+				}
+				err = p.AddIPv4LinkMTU(uint16(v))
+			default:
+				panic(badArg{})
+			}
+			if err != nil {
+				return "err " + u(uint64(k)) + " " + fmtUnits(p)
+			}
+		}
+		return "ok " + fmtUnits(p) + " " + hx(retainBytes(p.Marshal()))
 	})
 	registerOp("ip2ngap", func(a []string) string {
 		t := ngapConvert.IPAddressToNgap(string(aHex(a[0])), string(aHex(a[1])))
@@ -313,6 +349,45 @@ func convDomain(e *emitter) {
 		e.op("pcort", s)
 	}
 	e.op("pcounm", "-")
+	// the constructors of the option list (pcoadd): every constructor alone, then random sequences; addresses of 4 and 16
+	// octets in both slots (an IPv4-mapped 16-octet address is an IPv4 address to net.IP), and of other lengths
+	ipTok := func() string {
+		switch e.rng.Intn(8) {
+		case 0:
+			return hx(append(append(make([]byte, 10), 0xff, 0xff), e.bytes(4)...)) // IPv4-mapped
+		case 1:
+			return hx(e.bytes([]int{0, 1, 3, 5, 15, 17}[e.rng.Intn(6)]))
+		case 2, 3, 4:
+			return hx(e.bytes(16))
+		}
+		return hx(e.bytes(4))
+	}
+	stepTok := func() string {
+		switch e.rng.Intn(6) {
+		case 0:
+			return "r4"
+		case 1:
+			return "r6"
+		case 2:
+			return "ra"
+		case 3:
+			return "d4." + ipTok()
+		case 4:
+			return "d6." + ipTok()
+		}
+		return "mtu." + u(uint64([]int{0, 1, 255, 256, 1280, 1500, 65535, e.rng.Intn(65536)}[e.rng.Intn(8)]))
+	}
+	for _, st := range []string{"r4", "r6", "ra", "d4.01020304", "d6.20010db8000000000000000000000001", "mtu.1500", "d4.-", "d6.01020304",
+		"d4.00000000000000000000ffff0a000001", "d6.00000000000000000000ffff0a000001", "d4.20010db8000000000000000000000001", "r4,r6,ra"} {
+		e.op("pcoadd", st)
+	}
+	for k := 0; k < 20+e.n/40; k++ {
+		var steps []string
+		for j := 1 + e.rng.Intn(6); j > 0; j-- {
+			steps = append(steps, stepTok())
+		}
+		e.op("pcoadd", strings.Join(steps, ","))
+	}
 	for k := 0; k < nPco/2+60; k++ { // arbitrary octets: truncated units, wrong first octet
 		b := e.bytes(e.rng.Intn(24))
 		if len(b) > 0 && e.rng.Intn(2) == 0 {
